@@ -60,4 +60,11 @@ for seed in range(R.n(3, 12)):
         R.check('antenna/stack+clock', dict(seed=seed, npol=npol), ok, None)
         an.set_time(7.5)
         R.check('antenna/set_time', dict(seed=seed, npol=npol), an.t_start == 7.5 and all(st.t_start == 7.5 and st.start_obs for st in an.streams), None)
+# request length at awkward (sample_rate, size) pairs
+for sr in (3e9, 48e3, 10.0, 1e6, 2.344e9):
+    for n in list(range(1, R.n(80, 400))):
+        s = DS.DataStream(sample_rate=sr, fch1=0, t_start=0.0, seed=1)
+        s.add_noise(0, 1)
+        v = s.get_samples(n)
+        R.check('request/exactly-n-samples', dict(sample_rate=sr, n=n), len(v) == n and len(s.ts) == n, len(v))
 R.finish()
